@@ -109,6 +109,13 @@ def gen(rng, tier):
         allow = 1 if exp.get("chainId") is None and exp["kind"] == "legacy" and rng.random() < 0.7 else rng.randrange(2)
         add("cli.sign_tx %s %s %s %s 1 %d" % (mn, pw, sel, hx(j), allow), ("sign_tx", "sigonly"), {"address_of": (mn, pw, sel), "digest_cmd": "cli.hash_tx %s none" % hx(j), "pipeline": hx(j), "allow": allow})
         add("cli.sign_tx %s %s %s %s 0 %d" % (mn, pw, sel, hx(j), allow), ("sign_tx", "full"), {"pipeline_full": hx(j)})
+    from vlib.core import perturb
+    mn0, pw0, _ = rand_acct(rng)
+    for v in perturb("7") + perturb("2147483647"):
+        add("cli.address %s %s idx:%s" % (mn0, pw0, hx(v)), ("perturbed-index",), {"via": {"mnemonic": "env", "index": rng.choice(["flag", "env"])}}, nt=False)
+    dg0 = "0x" + "%064x" % rng.getrandbits(256)
+    for v in perturb(dg0, "0x"):
+        add("cli.sign_raw %s %s default %s" % (mn0, pw0, hx(v)), ("sign_raw", "perturbed-digest"), nt=False)
     for bad in ["", "0x", "00", "0x" + "00" * 31, "0x" + "00" * 33, "zz" * 32, " " + "00" * 32, "0X" + "00" * 32]:
         mn, pw, sel = rand_acct(rng)
         add("cli.sign_raw %s %s %s %s" % (mn, pw, sel, hx(bad)), ("sign_raw", "bad-digest"), nt=False)
